@@ -71,9 +71,12 @@ Lemma hh_body_wf offs t : run_wf t -> Forall wf_enum (flat_map (hh_body offs) t)
 Proof.
   induction t as [|c t IH]; intros H; [constructor|]. inversion H; subst.
   cbn [flat_map]. apply Forall_app. split; [|apply IH; assumption].
-  destruct c; cbn [hh_body cmd_enums] in *; try constructor.
-  repeat match goal with H : Forall _ (_ :: _) |- _ => inversion H; clear H; subst end.
-  destruct offs; cbn [sel]; repeat constructor; assumption.
+  destruct c as [| |a0 a1 a2 a3 a4 a5|]; cbn [hh_body cmd_enums] in *; try constructor.
+  - destruct offs; cbn [sel];
+      repeat match goal with H : Forall _ (_ :: _) |- _ => inversion H; clear H; subst end; assumption.
+  - repeat match goal with H : Forall _ (_ :: _) |- _ => inversion H; clear H; subst end.
+    repeat (constructor; [assumption|]).
+    constructor; [destruct offs; cbn [sel]; assumption|constructor].
 Qed.
 
 Lemma mod4_mul k : ((4 * k) mod 4 = 0)%nat.
@@ -106,7 +109,8 @@ Proof.
     apply hh_body_wf. exact Hwp. }
   split; [exact Hk|]. split.
   { unfold hh_lay. apply Forall_app. split; [|exact Hwb].
-    destruct (is_zero _); [constructor|constructor; [exact Hwl|constructor]]. }
+    destruct (is_zero (hh_lead offs (ECurve a0 a1 a2 a3 a4 a5)));
+      [constructor|constructor; [exact Hwl|constructor]]. }
   split; [exact Hfit|].
   intros st p Hat Hm. destruct Hat as (Hp & Hs & Hpend).
   cbn [hh_last hh_lead hh_body] in *.
@@ -156,4 +160,361 @@ Proof.
     + pose proof (keep_vvcurves (length (vals (flat_map (hh_body false) t))) (vals (flat_map (hh_body false) t)) 0
                     (curve (tick st) (ev a0) (ev a1) (ev a2) (ev a3) 0 (ev a5)) (le_n _)) as K.
       unfold keep in K. destruct K as (_&_&_&_&_&K&_). rewrite K. exact Hpend.
+Qed.
+
+Definition hh_inv (offs : bool) (cs0 pre cs : list ecmd) (code : list enum) (pos : nat) : Prop :=
+  cs0 = pre ++ cs /\ code = hh_lay offs pre /\ pos = length pre /\ hh_valid offs pre = true.
+
+Lemma hh_lay_snoc offs pre c :
+  pre <> [] -> hh_lay offs (pre ++ [c]) = hh_lay offs pre ++ hh_body offs c.
+Proof.
+  destruct pre as [|c0 t0]; [congruence|]. intros _. cbn [app hh_lay].
+  rewrite flat_map_app. cbn [flat_map]. rewrite app_nil_r, <- !app_assoc. reflexivity.
+Qed.
+
+Lemma hh_valid_snoc offs pre c :
+  pre <> [] -> hh_valid offs pre = true -> hh_tail_ok offs c = true -> hh_valid offs (pre ++ [c]) = true.
+Proof.
+  destruct pre as [|c0 t0]; [congruence|]. intros _ Hv Hc. cbn [app hh_valid] in *.
+  apply andb_true_iff in Hv. destruct Hv as [Hv Ht]. rewrite Hv. cbn [andb].
+  rewrite forallb_app, Ht. cbn [forallb]. rewrite Hc. reflexivity.
+Qed.
+
+Lemma hh_loop_ok cs0 offs : run_wf cs0 -> forall cs pre code pos,
+  hh_inv offs cs0 pre cs code pos ->
+  Forall (edge_ok cs0) (hh_loop offs (if offs then OHhcurveto else OVvcurveto) cs code pos).
+Proof.
+  intros Hwf. induction cs as [|c t IH]; intros pre code pos Hinv; [constructor|].
+  destruct c as [a b|dx dy|a0 a1 a2 a3 a4 a5|k bs]; try constructor.
+  cbn [hh_loop]. destruct (fits code 4) eqn:F4; [|constructor].
+  destruct (negb (is_zero (sel offs a4 a5))) eqn:Zlast; [constructor|].
+  apply negb_false_iff in Zlast.
+  destruct Hinv as (H0 & Hc & Hp & Hv).
+  set (c := ECurve a0 a1 a2 a3 a4 a5) in *.
+  (* the edge over pre ++ [c], once the invariant is re-established *)
+  assert (Hedge : forall code', hh_inv offs cs0 (pre ++ [c]) t code' (S pos) ->
+            (length code' <= t2_max_stack)%nat ->
+            edge_ok cs0 (mkEdge code' (if offs then OHhcurveto else OVvcurveto) (S pos))).
+  { intros code' (H0' & Hc' & Hp' & Hv') Hl.
+    assert (Hf : firstn (S pos) cs0 = pre ++ [c]) by (rewrite Hp', H0'; apply firstn_pre).
+    rewrite Hc', <- Hf. apply hh_edge_ok; auto.
+    - rewrite H0', app_length, <- Hp'. lia.
+    - rewrite Hf. exact Hv'.
+    - rewrite Hf, <- Hc'. exact Hl. }
+  destruct (negb (is_zero (sel offs a0 a1))) eqn:Zlead.
+  - (* a leading operand: only for the first curve *)
+    apply negb_true_iff in Zlead.
+    destruct ((pos =? 0)%nat && fits code 5) eqn:C; [|constructor].
+    apply andb_true_iff in C. destruct C as [C0 F5]. apply Nat.eqb_eq in C0.
+    assert (pre = []) by (destruct pre; [reflexivity|cbn in Hp; lia]). subst pre. cbn in Hc. subst code.
+    assert (Hinv' : hh_inv offs cs0 ([] ++ [c]) t (([] ++ [sel offs a0 a1]) ++ [sel offs a1 a0; a2; a3; sel offs a5 a4]) (S pos)).
+    { unfold hh_inv. repeat split.
+      - exact H0.
+      - cbn [app hh_lay c hh_lead hh_body flat_map]. rewrite Zlead. cbn [app]. reflexivity.
+      - cbn. lia.
+      - cbn [app hh_valid c hh_last is_curve forallb andb]. rewrite Zlast. reflexivity. }
+    constructor.
+    + apply Hedge; [exact Hinv'|]. cbn. unfold t2_max_stack. lia.
+    + eapply IH. exact Hinv'.
+  - apply negb_false_iff in Zlead.
+    assert (Hinv' : hh_inv offs cs0 (pre ++ [c]) t (code ++ [sel offs a1 a0; a2; a3; sel offs a5 a4]) (S pos)).
+    { unfold hh_inv. repeat split.
+      - rewrite <- app_assoc. exact H0.
+      - destruct pre as [|c0 t0].
+        + cbn in Hc. subst code. cbn [app hh_lay c hh_lead hh_body flat_map]. rewrite Zlead.
+          cbn [app]. reflexivity.
+        + rewrite hh_lay_snoc by discriminate. rewrite Hc. reflexivity.
+      - rewrite app_length. cbn. lia.
+      - destruct pre as [|c0 t0].
+        + cbn [app hh_valid c hh_last is_curve forallb andb]. rewrite Zlast. reflexivity.
+        + apply hh_valid_snoc; [discriminate|exact Hv|].
+          unfold hh_tail_ok. cbn [c is_curve hh_last hh_lead]. rewrite Zlast, Zlead. reflexivity. }
+    constructor.
+    + apply Hedge; [exact Hinv'|]. apply fits_le in F4. rewrite app_length. cbn [length]. lia.
+    + eapply IH. exact Hinv'.
+Qed.
+
+(* ---------------- hvcurveto (orig = false) / vhcurveto (orig = true) ---------------- *)
+
+Definition hv_start (offs : bool) (c : ecmd) : enum :=
+  match c with ECurve a0 a1 _ _ _ _ => sel offs a1 a0 | _ => (0, []) end.
+Definition hv_lastd (offs : bool) (c : ecmd) : enum :=
+  match c with ECurve _ _ _ _ a4 a5 => sel offs a4 a5 | _ => (0, []) end.
+Definition hv_body (offs : bool) (c : ecmd) : list enum :=
+  match c with ECurve a0 a1 a2 a3 a4 a5 => [sel offs a0 a1; a2; a3; sel offs a5 a4] | _ => [] end.
+Definition hv_one (offs : bool) (c : ecmd) : list enum :=
+  hv_body offs c ++ (if is_zero (hv_lastd offs c) then [] else [hv_lastd offs c]).
+
+Fixpoint hv_lay (offs : bool) (pre : list ecmd) : list enum :=
+  match pre with
+  | [] => []
+  | c :: t => hv_one offs c ++ hv_lay (negb offs) t
+  end.
+
+(* every curve starts flat in its direction and ends flat in the other one *)
+Fixpoint hv_mid (offs : bool) (pre : list ecmd) : bool :=
+  match pre with
+  | [] => true
+  | c :: t => is_curve c && is_zero (hv_start offs c) && is_zero (hv_lastd offs c) && hv_mid (negb offs) t
+  end.
+
+(* ... except that the last curve may end anywhere *)
+Fixpoint hv_valid (offs : bool) (pre : list ecmd) : bool :=
+  match pre with
+  | [] => true
+  | [c] => is_curve c && is_zero (hv_start offs c)
+  | c :: t => is_curve c && is_zero (hv_start offs c) && is_zero (hv_lastd offs c) && hv_valid (negb offs) t
+  end.
+
+Fixpoint flipn (n : nat) (b : bool) : bool := match n with O => b | S m => flipn m (negb b) end.
+
+Lemma flipn_negb n b : flipn n (negb b) = negb (flipn n b).
+Proof. revert b. induction n; intros b; cbn [flipn]; [reflexivity|]. rewrite IHn. reflexivity. Qed.
+
+Lemma hv_lay_app : forall a offs b, hv_lay offs (a ++ b) = hv_lay offs a ++ hv_lay (flipn (length a) offs) b.
+Proof.
+  induction a as [|c a IH]; intros offs b; [reflexivity|].
+  cbn [app hv_lay length flipn]. rewrite IH, <- app_assoc. reflexivity.
+Qed.
+
+Lemma hv_valid_snoc : forall pre offs c,
+  hv_mid offs pre = true -> is_curve c = true -> is_zero (hv_start (flipn (length pre) offs) c) = true ->
+  hv_valid offs (pre ++ [c]) = true.
+Proof.
+  induction pre as [|c0 t0 IH]; intros offs c Hm Hc Hz.
+  - cbn in *. rewrite Hc, Hz. reflexivity.
+  - cbn [hv_mid] in Hm. apply andb_true_iff in Hm. destruct Hm as [Hm Ht].
+    specialize (IH (negb offs) c Ht Hc Hz).
+    cbn [app]. destruct t0 as [|c1 t1]; cbn [app hv_valid] in *; rewrite Hm; cbn [andb]; exact IH.
+Qed.
+
+Lemma hv_mid_snoc : forall pre offs c,
+  hv_mid offs pre = true -> hv_mid (flipn (length pre) offs) [c] = true -> hv_mid offs (pre ++ [c]) = true.
+Proof.
+  induction pre as [|c0 t0 IH]; intros offs c Hm Hc; [exact Hc|].
+  cbn [hv_mid] in Hm. apply andb_true_iff in Hm. destruct Hm as [Hm Ht].
+  cbn [app hv_mid]. rewrite Hm. cbn [andb]. apply IH; assumption.
+Qed.
+
+Lemma hv_mid_valid : forall pre offs, hv_mid offs pre = true -> hv_valid offs pre = true.
+Proof.
+  induction pre as [|c t IH]; intros offs H; [reflexivity|].
+  cbn [hv_mid] in H. apply andb_true_iff in H. destruct H as [H Ht].
+  destruct t as [|c1 t1].
+  - cbn [hv_valid]. apply andb_true_iff in H. tauto.
+  - cbn [hv_valid]. rewrite H. cbn [andb]. apply IH. exact Ht.
+Qed.
+
+Lemma hv_one_length offs c : is_curve c = true ->
+  length (hv_one offs c) = (if is_zero (hv_lastd offs c) then 4 else 5)%nat.
+Proof. destruct c; try discriminate. intros _. unfold hv_one. cbn [hv_body]. destruct (is_zero _); reflexivity. Qed.
+
+Lemma hv_lay_length : forall pre offs, hv_valid offs pre = true ->
+  exists e, (e <= 1)%nat /\ length (hv_lay offs pre) = (4 * length pre + e)%nat.
+Proof.
+  induction pre as [|c t IH]; intros offs H; [exists 0%nat; cbn; lia|].
+  destruct t as [|c1 t1].
+  - cbn [hv_valid] in H. apply andb_true_iff in H. destruct H as [Hc _].
+    cbn [hv_lay]. rewrite app_nil_r, hv_one_length by assumption.
+    destruct (is_zero _); [exists 0%nat|exists 1%nat]; cbn; lia.
+  - cbn [hv_valid] in H. apply andb_true_iff in H. destruct H as [H Ht].
+    apply andb_true_iff in H. destruct H as [H Hz]. apply andb_true_iff in H. destruct H as [Hc _].
+    destruct (IH (negb offs) Ht) as (e & He & Hl).
+    exists e. split; [exact He|].
+    change (hv_lay offs (c :: c1 :: t1)) with (hv_one offs c ++ hv_lay (negb offs) (c1 :: t1)).
+    rewrite app_length, Hl, hv_one_length by assumption.
+    rewrite Hz. cbn [length]. lia.
+Qed.
+
+Lemma hv_lay_wf : forall pre offs, run_wf pre -> Forall wf_enum (hv_lay offs pre).
+Proof.
+  induction pre as [|c t IH]; intros offs H; [constructor|]. inversion H; subst.
+  cbn [hv_lay]. apply Forall_app. split; [|apply IH; assumption].
+  unfold hv_one. destruct c as [| |a0 a1 a2 a3 a4 a5|]; cbn [hv_body hv_lastd cmd_enums] in *;
+    [constructor|constructor| |constructor].
+  repeat match goal with H : Forall _ (_ :: _) |- _ => inversion H; clear H; subst end.
+  apply Forall_app. split.
+  - destruct offs; cbn [sel]; repeat (constructor; [assumption|]); constructor.
+  - destruct offs; cbn [sel];
+      match goal with |- context [is_zero ?x] => destruct (is_zero x) end;
+      repeat constructor; assumption.
+Qed.
+
+Lemma altcurves_adv : forall pre offs st,
+  hv_valid offs pre = true ->
+  pst_of (altcurves (negb offs) st (vals (hv_lay offs pre))) = adv (pst_of st) pre.
+Proof.
+  induction pre as [|c t IH]; intros offs st H; [reflexivity|].
+  destruct t as [|c1 t1].
+  - (* the last curve *)
+    cbn [hv_valid] in H. apply andb_true_iff in H. destruct H as [Hc Hz].
+    destruct c as [| |a0 a1 a2 a3 a4 a5|]; try discriminate.
+    cbn [hv_lay hv_one hv_body hv_lastd hv_start] in *. rewrite app_nil_r.
+    unfold hv_one. cbn [hv_body hv_lastd].
+    destruct (is_zero (sel offs a4 a5)) eqn:Za;
+      destruct offs; cbn [sel negb app vals map altcurves] in *; rewrite pst_of_curve;
+      cbn [adv fold_left app_draw]; rewrite ?(zero_ev _ Hz), ?(zero_ev _ Za); reflexivity.
+  - cbn [hv_valid] in H. apply andb_true_iff in H. destruct H as [H Ht].
+    apply andb_true_iff in H. destruct H as [H Za]. apply andb_true_iff in H. destruct H as [Hc Hz].
+    destruct c as [| |a0 a1 a2 a3 a4 a5|]; try discriminate.
+    specialize (IH (negb offs)).
+    assert (Hc1 : is_curve c1 = true).
+    { destruct t1; cbn [hv_valid] in Ht; repeat (apply andb_true_iff in Ht; destruct Ht as [Ht ?]); assumption. }
+    destruct c1 as [| |b0 b1 b2 b3 b4 b5|]; try discriminate.
+    cbn [hv_lastd hv_start] in *.
+    change (hv_lay offs (ECurve a0 a1 a2 a3 a4 a5 :: ECurve b0 b1 b2 b3 b4 b5 :: t1))
+      with (hv_one offs (ECurve a0 a1 a2 a3 a4 a5) ++ hv_lay (negb offs) (ECurve b0 b1 b2 b3 b4 b5 :: t1)).
+    unfold hv_one at 1. cbn [hv_body hv_lastd]. rewrite Za, app_nil_r.
+    remember (hv_lay (negb offs) (ECurve b0 b1 b2 b3 b4 b5 :: t1)) as L eqn:EL.
+    assert (HL : exists x1 x2 L', L = x1 :: x2 :: L').
+    { rewrite EL. cbn [hv_lay hv_one hv_body app]. eauto. }
+    destruct HL as (x1 & x2 & L' & ->).
+    cbn [app vals map]. rewrite altcurves_step.
+    change (ev x1 :: ev x2 :: map ev L') with (vals (x1 :: x2 :: L')).
+    destruct offs; cbn [sel negb] in *.
+    + rewrite IH by assumption. rewrite pst_of_curve. cbn [adv fold_left app_draw].
+      rewrite (zero_ev _ Hz), (zero_ev _ Za). reflexivity.
+    + rewrite IH by assumption. rewrite pst_of_curve. cbn [adv fold_left app_draw].
+      rewrite (zero_ev _ Hz), (zero_ev _ Za). reflexivity.
+Qed.
+
+Lemma altcurves_pend h st a : pend (altcurves h st a) = pend st.
+Proof. pose proof (keep_altcurves (length a) a h st (le_n _)) as K. unfold keep in K. tauto. Qed.
+
+Lemma hv_edge_ok cs0 orig k :
+  run_wf cs0 -> (1 <= k <= length cs0)%nat -> hv_valid orig (firstn k cs0) = true ->
+  (length (hv_lay orig (firstn k cs0)) <= t2_max_stack)%nat ->
+  edge_ok cs0 (mkEdge (hv_lay orig (firstn k cs0)) (if orig then OVhcurveto else OHvcurveto) k).
+Proof.
+  intros Hwf Hk Hv Hfit. unfold edge_ok. cbn [e_to e_args e_op].
+  assert (Hwp : run_wf (firstn k cs0)).
+  { rewrite <- (firstn_skipn k cs0) in Hwf. apply run_wf_app in Hwf. tauto. }
+  destruct (hv_lay_length _ _ Hv) as (e & He & Hlen).
+  rewrite firstn_length in Hlen. replace (Nat.min k (length cs0)) with k in Hlen by lia.
+  split; [exact Hk|]. split; [apply hv_lay_wf; exact Hwp|]. split; [exact Hfit|].
+  intros st p Hat Hm. destruct Hat as (Hp & Hs & Hpend).
+  assert (Hn : length (args (tick st)) = (4 * k + e)%nat).
+  { unfold args. cbn [stk tick]. rewrite Hs, !rev_length. unfold vals. rewrite map_length. exact Hlen. }
+  assert (Hcnt : ((4 <=? 4 * k + e)%nat && ((4 * k + e) mod 4 <? 2)%nat) = true).
+  { apply andb_true_iff. split; [apply Nat.leb_le; lia|].
+    destruct e as [|[|]]; [rewrite Nat.add_0_r, mod4_mul|rewrite mod4_mul1|lia]; reflexivity. }
+  destruct orig; cbn [do_op]; rewrite Hn.
+  - apply drawing_spec with (s := stk st); [repeat split; assumption|exact Hcnt|exact Hm| |];
+      rewrite Hs, rev_involutive.
+    + change false with (negb true). rewrite altcurves_adv by assumption. rewrite pst_of_tick, Hp. reflexivity.
+    + rewrite altcurves_pend. exact Hpend.
+  - apply drawing_spec with (s := stk st); [repeat split; assumption|exact Hcnt|exact Hm| |];
+      rewrite Hs, rev_involutive.
+    + change true with (negb false). rewrite altcurves_adv by assumption. rewrite pst_of_tick, Hp. reflexivity.
+    + rewrite altcurves_pend. exact Hpend.
+Qed.
+
+Definition hv_inv (orig offs : bool) (cs0 pre cs : list ecmd) (code : list enum) (pos : nat) : Prop :=
+  cs0 = pre ++ cs /\ code = hv_lay orig pre /\ pos = length pre /\ hv_mid orig pre = true /\
+  offs = flipn (length pre) orig.
+
+Lemma hv_loop_ok cs0 orig : run_wf cs0 -> forall cs pre offs code pos,
+  hv_inv orig offs cs0 pre cs code pos ->
+  Forall (edge_ok cs0) (hv_loop orig offs (if orig then OVhcurveto else OHvcurveto) cs code pos).
+Proof.
+  intros Hwf. induction cs as [|c t IH]; intros pre offs code pos Hinv; [constructor|].
+  destruct c as [a b|dx dy|a0 a1 a2 a3 a4 a5|k bs]; try constructor.
+  cbn [hv_loop].
+  destruct (negb (is_zero (sel offs a1 a0))) eqn:Zs; [constructor|]. apply negb_false_iff in Zs.
+  destruct (negb (Bool.eqb offs orig) && negb (is_zero (sel offs a4 a5))) eqn:C1; [constructor|].
+  destruct (negb (fits code 4) || negb (is_zero (sel offs a4 a5)) && negb (fits code 5)) eqn:C2; [constructor|].
+  apply orb_false_iff in C2. destruct C2 as [F4 F5]. apply negb_false_iff in F4.
+  destruct Hinv as (H0 & Hc & Hp & Hm & Ho).
+  set (c := ECurve a0 a1 a2 a3 a4 a5) in *.
+  set (code' := if is_zero (sel offs a4 a5)
+                then code ++ [sel offs a0 a1; a2; a3; sel offs a5 a4]
+                else (code ++ [sel offs a0 a1; a2; a3; sel offs a5 a4]) ++ [sel offs a4 a5]).
+  assert (Hcode : code' = hv_lay orig (pre ++ [c])).
+  { rewrite hv_lay_app, <- Ho, <- Hc. cbn [hv_lay]. rewrite app_nil_r. unfold hv_one, code'.
+    cbn [c hv_body hv_lastd]. destruct (is_zero (sel offs a4 a5)); [rewrite app_nil_r|rewrite app_assoc]; reflexivity. }
+  assert (Hlen : (length code' <= t2_max_stack)%nat).
+  { unfold code'. apply fits_le in F4. destruct (is_zero (sel offs a4 a5)) eqn:Za.
+    - rewrite app_length. cbn [length]. lia.
+    - cbn [negb andb] in F5. apply negb_false_iff in F5. apply fits_le in F5.
+      rewrite !app_length. cbn [length]. lia. }
+  assert (Hf : firstn (S pos) cs0 = pre ++ [c]).
+  { rewrite Hp, H0. change (c :: t) with ([c] ++ t). rewrite app_assoc.
+    apply firstn_app_exact. rewrite app_length. cbn. lia. }
+  assert (Hedge : edge_ok cs0 (mkEdge code' (if orig then OVhcurveto else OHvcurveto) (S pos))).
+  { rewrite Hcode, <- Hf. apply hv_edge_ok; auto.
+    - rewrite H0, app_length, <- Hp. cbn [length]. lia.
+    - rewrite Hf. apply hv_valid_snoc; [exact Hm|reflexivity|]. rewrite <- Ho. exact Zs.
+    - rewrite Hf, <- Hcode. exact Hlen. }
+  (* the loop continues only after an aligned curve *)
+  assert (Hnext : is_zero (sel offs a4 a5) = true ->
+            hv_inv orig (negb offs) cs0 (pre ++ [c]) t code' (S pos)).
+  { intros Za. unfold hv_inv. repeat split.
+    - rewrite <- app_assoc. exact H0.
+    - exact Hcode.
+    - rewrite app_length. cbn. lia.
+    - apply hv_mid_snoc; [exact Hm|]. rewrite <- Ho. cbn [hv_mid c is_curve hv_start hv_lastd].
+      rewrite Zs, Za. reflexivity.
+    - rewrite app_length. cbn [length]. rewrite Nat.add_1_r. cbn [flipn].
+      rewrite flipn_negb, <- Ho. reflexivity. }
+  fold code'.
+  change (if is_zero (sel offs a4 a5)
+          then code ++ [sel offs a0 a1; a2; a3; sel offs a5 a4]
+          else (code ++ [sel offs a0 a1; a2; a3; sel offs a5 a4]) ++ [sel offs a4 a5]) with code'.
+  destruct (Bool.eqb (negb offs) orig) eqn:E.
+  - (* no edge after an even number of curves; the curve was aligned *)
+    assert (Za : is_zero (sel offs a4 a5) = true).
+    { destruct (is_zero (sel offs a4 a5)); [reflexivity|].
+      destruct offs, orig; cbn in E, C1; discriminate. }
+    eapply IH. apply Hnext. exact Za.
+  - constructor; [exact Hedge|].
+    destruct (is_zero (sel offs a4 a5)) eqn:Za; [|constructor].
+    eapply IH. apply Hnext. reflexivity.
+Qed.
+
+(* ---------------- hflex / hflex1 ---------------- *)
+
+Lemma flex_edges_ok cs0 : run_wf cs0 -> Forall (edge_ok cs0) (flex_edges cs0).
+Proof.
+  intros Hwf. unfold flex_edges.
+  destruct cs0 as [|c1 t]; [constructor|].
+  destruct c1 as [| |a0 a1 a2 a3 a4 a5|]; try constructor.
+  destruct t as [|c2 rest]; [constructor|].
+  destruct c2 as [| |b0 b1 b2 b3 b4 b5|]; try constructor.
+  destruct (is_zero a5 && is_zero b1) eqn:Z; [|constructor].
+  apply andb_true_iff in Z. destruct Z as [Za5 Zb1].
+  inversion Hwf as [|? ? Hw1 Hw']; subst. inversion Hw' as [|? ? Hw2 _]; subst.
+  cbn [cmd_enums] in Hw1, Hw2.
+  repeat match goal with H : Forall _ (_ :: _) |- _ => inversion H; clear H; subst end.
+  destruct (is_zero a1 && is_zero b5 && (ev a3 + ev b3 =? 0)) eqn:Zh.
+  - (* hflex *)
+    apply andb_true_iff in Zh. destruct Zh as [Zh Zd]. apply andb_true_iff in Zh. destruct Zh as [Za1 Zb5].
+    apply Z.eqb_eq in Zd.
+    constructor; [|constructor]. unfold edge_ok. cbn [e_to e_args e_op length].
+    split; [lia|]. split; [repeat (constructor; [assumption|]); constructor|].
+    split; [unfold t2_max_stack; lia|].
+    intros st p (Hp & Hs & Hpend) Hm. cbn [do_op].
+    assert (Hn : length (args (tick st)) = 7%nat).
+    { unfold args. cbn [stk tick]. rewrite Hs. reflexivity. }
+    rewrite Hn.
+    apply drawing_spec with (s := stk st); [repeat split; assumption|reflexivity|exact Hm| |];
+      rewrite Hs; cbn [vals map rev app].
+    + rewrite !pst_of_curve, pst_of_tick, Hp. cbn [firstn adv fold_left app_draw].
+      rewrite (zero_ev _ Za1), (zero_ev _ Za5), (zero_ev _ Zb1), (zero_ev _ Zb5).
+      replace (- ev a3) with (ev b3) by lia. reflexivity.
+    + exact Hpend.
+  - destruct (ev a3 + ev b3 + ev a1 + ev b5 =? 0) eqn:Zd; [|constructor].
+    apply Z.eqb_eq in Zd.
+    constructor; [|constructor]. unfold edge_ok. cbn [e_to e_args e_op length].
+    split; [lia|]. split; [repeat (constructor; [assumption|]); constructor|].
+    split; [unfold t2_max_stack; lia|].
+    intros st p (Hp & Hs & Hpend) Hm. cbn [do_op].
+    assert (Hn : length (args (tick st)) = 9%nat).
+    { unfold args. cbn [stk tick]. rewrite Hs. reflexivity. }
+    rewrite Hn.
+    apply drawing_spec with (s := stk st); [repeat split; assumption|reflexivity|exact Hm| |];
+      rewrite Hs; cbn [vals map rev app].
+    + rewrite !pst_of_curve, pst_of_tick, Hp. cbn [firstn adv fold_left app_draw].
+      rewrite (zero_ev _ Za5), (zero_ev _ Zb1).
+      replace (- (ev a1 + ev a3 + ev b3)) with (ev b5) by lia. reflexivity.
+    + exact Hpend.
 Qed.
